@@ -335,7 +335,7 @@ def tr(a, i):
     if i == "L":
         return None if a else True
     if i == "U":
-        return False if a else None
+        return False
     if i == "C":
         return None if a else False
     return a
